@@ -16,7 +16,7 @@ EXCLUSIONS = {
     "'/' , NUL, '-' in string keys destined for dir archives": "known finding C03 dir-archive key->file-name aliasing (tested in C03 probes)",
     'bare-vararg scalar raw keys with dir archives': "known finding C03: 1 and '1' share a file name",
     'dir source-text archive with keys needing an input file': 'known finding C03/C04: source-text dir archive cannot read back such keys; only md5-style keys used',
-    'python-hash keymaps with arguments whose hashes collide (-1/-2)': 'python hash is lossy; property speaks of information-preserving keymaps',
+    "python-hash keymaps with arguments whose hashes collide (-1/-2, ''/0)": 'python hash is lossy; property speaks of information-preserving keymaps',
     'non-ASCII text in keys of source-text file archives': 'finding D9c (C03/C04): written as latin-1, read as UTF-8 source',
     'equal-but-differently-typed argument values (1, 1.0, True) in pools destined for dir archives': 'a dict merges them, a dir archive files them separately (C03 probe)',
     'nan arguments': 'nan != nan: "the same call" is undefined',
@@ -85,8 +85,10 @@ def arg_values(draw, module, kkind, key_req, rich=False, no_ints=False):
     """one argument value spec, drawn from a domain the configuration accepts"""
     hurt = key_req not in ('fname', 'strsafe')
     if kkind == 'pyhash':
+        # python's hash is lossy: hash(-1) == hash(-2), hash('') == hash(0) == 0 ... such pairs are kept out of the pools of the
+        # (not information-preserving) default / hashmap(None) keymaps: no negative ints, no empty string
         return draw(st.one_of(st.integers(0, 6).map(lambda i: ['i', i]),
-                              V.strs(hurt), V.NONE,
+                              V.strs(hurt).filter(lambda sp: sp[1] != ''), V.NONE,
                               st.lists(st.integers(0, 4).map(lambda i: ['i', i]), max_size=2).map(lambda x: ['t', x])))
     if key_req == 'evalable':
         # source-text file archive: non-latin-1 text cannot be written, non-ASCII text cannot be read back
